@@ -198,6 +198,23 @@ def runner(rep, tier, seed, replay):
     sample = rnd.sample(okidx, nsample) if okidx else []
     to_run += sample
     log("[C01] process level: %d mismatch clusters, %d cases (%d sampled matches)" % (len(by_cluster), len(to_run), len(sample)))
+    # a quoted operator character followed by a word that happens to be an alias name: the operator is an argument, so the word
+    # after it is an argument too (no new command starts there, nothing is alias-replaced)
+    al = []
+    for q in ("'|'", '"|"', "'||'", "';'", '"&&"', "'&'", "'|' '|'"):
+        al.append(("alias zz='vpa EXPANDED' ; vpa x %s zz y" % q, ["x"] + [w.strip("'\"") for w in q.split()] + ["zz", "y"]))
+    ares = run_cases([{"entry": e, "text": ln + ("\n" if e == "script" else ""), "timeout": 15, "want_files": False} for ln, _ in al for e in ("c", "script")])
+    k = 0
+    for ln, want in al:
+        for ent in ("c", "script"):
+            res = ares[k]
+            k += 1
+            rep.cov["evaluations"] += 1
+            got = [r.get("argv") for r in res.get("log", []) if r.get("h") == "pa"]
+            if res.get("timed_out") or got != [want]:
+                rep.violation("alias-after-quoted-operator/%s" % ent, "`%s` (%s): programs %s, expected %s" % (ln, ent, got, [want]),
+                              {"line": ln, "entry": ent, "got_log": got, "feat": {"style": "sq/dq", "chars": ["|"], "kind": "alias-after-quoted-operator"}},
+                              {"style": "quoted", "kind": "alias-after-quoted-operator", "chars": ["|"], "pos": "middle", "ctx": "alias", "tight": False, "bs_chars": [], "txt": "|"})
     # the same lines as the head of `if` / `else if` / `while` (separate code path: scripting.rs::run_exp_test_br)
     structure.check_heads(rep, [proc_case(cases[i]) for i in sample], rnd, 150 if tier == "quick" else 1500, "C01")
     results = run_cases([proc_case(cases[i]) for i in to_run])
